@@ -237,7 +237,8 @@ class TraceProp(Prop):
         order = sorted(dumps)
         mm = tracecmp.compare([obs['markers'][i] for i in order], [dumps[i] for i in order], self.sections)
         for (j, sec, a, b) in mm[:3]:
-            out.mismatches.append({'stream': '%s at marker %d (%s)' % (sec, order[j], obs['markers'][order[j]]['label']),
+            out.mismatches.append({'signature': self.mismatch_signature(case),
+                                   'stream': '%s at marker %d (%s)' % (sec, order[j], obs['markers'][order[j]]['label']),
                                    'impl': a, 'model': b})
         self.extra_judge(case, obs, out)
         obs['_tags'] = list(out.tags)
@@ -256,10 +257,22 @@ class TraceProp(Prop):
     def extra_judge(self, case, obs, out):
         pass
 
+    def mismatch_signature(self, case):
+        # a model / implementation difference on an input of the open finding F-DEFAULT (the model writes the NULL the
+        # application stored, the implementation's version row holds the column default) belongs to that finding
+        if any('default' in col or 'server_default' in col for c in case['spec']['classes'] for col in c['columns']):
+            return 'C01.version_differs:column_default'
+        return None
+
     def signature(self, case, obs, v):
         # SQLAlchemy's row switch (delete + insert of one key in ONE flush, delivered as an UPDATE whose
         # unchanged-flag columns do not hold the stored values) was the finding F-ROWSWITCH (fixed; the signature is kept for the pinned case): it shows
         # either in the program or as a violation of the W2 contract on an `upd` event of the trace
+        # open finding F-DEFAULT: the version table copies a column's default / server_default, and the ORM leaves None
+        # values out of the version row's INSERT: a NULL the application stored explicitly is the default in the version row
+        if v['clause'].startswith('C01.') and any('default' in col or 'server_default' in col
+                                                  for c in case['spec']['classes'] for col in c['columns']):
+            return 'C01.version_differs:column_default'
         if v['clause'] == 'C01.newestIsLive' and (_row_switch_in(case.get('program') or []) or
                                                   'wf_violated:upd' in (obs.get('_tags') or [])):
             return 'C01.newestIsLive:row_switch'
@@ -444,6 +457,8 @@ class C01(TraceProp):
             yield proggen.sp_then_touch_case(rng)
         for _ in range(12 if tier == 'quick' else 300):
             yield proggen.same_value_inherited_case(rng)
+        for _ in range(12 if tier == 'quick' else 300):
+            yield proggen.repeated_takeover_case(rng)
 
     def pick_plugins(self, rng):
         return None
@@ -571,6 +586,8 @@ class C11(TraceProp):
             yield c
         for _ in range(12 if tier == 'quick' else 400):
             yield proggen.sp_then_touch_case(rng)
+        for _ in range(12 if tier == 'quick' else 300):
+            yield proggen.repeated_takeover_case(rng)
         from .. import envs as _envs
         # a key deleted in one transaction and re-used in a later one whose row is written by several flushes
         for _ in range(6 if tier == 'quick' else 100):
